@@ -43,6 +43,19 @@ def resolveHoistedFrom (look : Look) (cell : Nat) : HMWE → Cells → HMWE × C
 def resolveHoisted (look : Look) (m : HMWE) (h : Cells) : HMWE × Cells :=
   resolveHoistedFrom look h.length m (h ++ [[]])
 
+/-- `Mapping.ToMappingWithEquals` / `Labels.ToMappingWithEquals`: `for k, v := range m { v := v; mapping[k] = &v }` — the
+    copy `v := v` gives every key a cell of its own (go.mod says go 1.21: without it the loop variable is one cell) -/
+def toMWEH : List (Key × Str) → Cells → HMWE × Cells
+  | [], h => ([], h)
+  | (k, v) :: r, h => ((k, some h.length) :: (toMWEH r (h ++ [v])).1, (toMWEH r (h ++ [v])).2)
+
+/-- the slip: no copy — every key stores the address of the one loop variable `cell`, which holds the value visited last -/
+def toMWENoCopyFrom (cell : Nat) : List (Key × Str) → Cells → HMWE × Cells
+  | [], h => ([], h)
+  | (k, v) :: r, h => ((k, some cell) :: (toMWENoCopyFrom cell r (h.set cell v)).1, (toMWENoCopyFrom cell r (h.set cell v)).2)
+
+def toMWENoCopy (m : List (Key × Str)) (h : Cells) : HMWE × Cells := toMWENoCopyFrom h.length m (h ++ [[]])
+
 /-- every address of the map is allocated -/
 def Valid (h : Cells) (m : HMWE) : Prop := ∀ k a, (k, some a) ∈ m → a < h.length
 
